@@ -1,4 +1,7 @@
 """C30 -- the backward-compatibility linter rejects the documented unsafe schema evolutions."""
+import json
+import os
+
 from vlib import *
 import lint_lib as L
 
@@ -13,6 +16,8 @@ FAMILY = "lint"
 # The variant actually used for the correspondence is read off the real code with three witness pairs (probe_variant);
 # a disagreement between FIXED and the probes is itself reported.
 FIXED = False
+if os.environ.get("VERIF_LINT_FIXED"):   # for trying the check against a patched copy of the repository (VERIF_REPO)
+    FIXED = os.environ["VERIF_LINT_FIXED"] == "1"
 
 
 def gen_ops(ctx):
@@ -54,8 +59,11 @@ def gen_ops(ctx):
         ctx._lint["err"] = go
         return []
     ctx.notes["dropped_not_individually_valid"] = dropped
-    sel = [o for o in ops if o[1].startswith("sample") and o[2]["mode"] == "pair"] + \
-          [o for o in ops if not o[1].startswith("sample")][:: max(1, len(ops) // 10)]
+    samp = [o for o in ops if o[1].startswith("sample") and o[2]["mode"] == "pair"]
+    rnd_ = [o for o in ops if not o[1].startswith("sample")]
+    if quick:   # one process start per pair: a handful in the quick tier, all samples in the thorough one
+        samp = samp[:: max(1, len(samp) // 3)][:3]
+    sel = samp + rnd_[:: max(1, len(rnd_) // (6 if quick else 40))]
     for o in sel:
         ctx._lint["cli"].append((o, L.cli_verdict(ctx, o[2]["old"], o[2]["new"])))
     ctx._lint["go"] = go
@@ -75,11 +83,19 @@ def sig_for(kind, data, out):
     if out == "crash":
         return "C30:F3:args-index-panic" if kind == "rm-targ" else f"C30:crash:{kind}"
     if out == "accept":
-        if kind == "ty-rep" or (kind == "bare-to-union" and detail == ["rep"]):
+        if kind == "ty-rep" or (kind in ("bare-to-union", "bit-reuse-deep") and detail == ["rep"]):
             return "C30:repeat-contents"
         if kind in ("ty-bare", "bare-to-union"):
             return "C30:F2:bare-flag"
     return f"C30:not-rejected:{kind}:{out.replace(' ', ':')}"
+
+
+def replay_text(data):
+    """the failing pair itself (the scratch files are gone after the run)"""
+    try:
+        return f"{data['mode']} {data['old']} {data['new']} OLD={json.dumps(Path(data['old']).read_text())} NEW={json.dumps(Path(data['new']).read_text())}"
+    except OSError:
+        return f"{data['mode']} {data['old']} {data['new']}"
 
 
 def oracle(ctx, ops, go_out):
@@ -88,7 +104,7 @@ def oracle(ctx, ops, go_out):
     idx = {id(o): g for o, g in zip(ops, go_out)}
     for (op, kind, data), out in zip(ops, go_out):
         if not out.startswith("reject"):
-            bad.append((f"{data['mode']} {data['old']} {data['new']}", kind, out, sig_for(kind, data, out)))
+            bad.append((replay_text(data), kind, out, sig_for(kind, data, out)))
     for o, v in ctx._lint["cli"]:
         hv = idx[id(o)]
         if v.replace(" -", "") != hv:
